@@ -156,7 +156,13 @@ func validateResponseExits(c *core.Ctx) {
 			// classification
 			res := astx.Unparen(ret.Results[0])
 			usesTable := false
-			for _, call := range astx.Calls(res) {
+			var resNode ast.Node = res
+			if o := astx.ObjOf(info, res); o != nil {
+				if rhs := s.LastAssigned(info, o); rhs != nil {
+					resNode = rhs // `err := NewError(table(status), …); err.meta = …; return err`
+				}
+			}
+			for _, call := range astx.Calls(resNode) {
 				if f := astx.CalleeFunc(info, call); f != nil && (f.Name() == "connectHTTPToCode" || f.Name() == "grpcHTTPToCode") {
 					usesTable = true
 				}
@@ -849,6 +855,17 @@ func defaultsBeforeOptions(c *core.Ctx) {
 		}
 		dnf, trunc := astx.PathConditions(info, loopBody, loopCalls[0])
 		uncond := !trunc && len(dnf) == 1 && len(dnf[0]) == 0
+		if !uncond && !trunc && len(dnf) == 1 {
+			// a guard that only skips a nil element (which used to panic)
+			onlyNil := true
+			for _, f := range dnf[0] {
+				_, op, r, ok := astx.CompareOp(f.Expr)
+				if !ok || !astx.IsNil(info, r) || (op == token.NEQ) != f.Pol {
+					onlyNil = false
+				}
+			}
+			uncond = onlyNil
+		}
 		c.Check(uncond, "unconditional/"+fname, loopCalls[0].Pos(), "every option of the list is applied (no condition on the element inside the loop)")
 		// defaults: apply calls outside the loop come before it and are unconditional
 		defaults, late, cond := 0, 0, 0
